@@ -49,6 +49,18 @@ except ImportError:
 __all__ = ['Data', 'BaseCartesianData', 'BaseData']
 
 
+def _clear_subset_state_caches():
+    # Masks are cached on the to_mask method of each subset state class,
+    # including the classes of states nested inside composite states, so
+    # when numerical values change we clear the caches of all of them
+    # (and we do so before listeners are told about the change).
+    classes = [SubsetState]
+    while classes:
+        cls = classes.pop()
+        clear_cache(cls.to_mask)
+        classes.extend(cls.__subclasses__())
+
+
 class BaseData(object, metaclass=abc.ABCMeta):
     """
     Base class for any glue data object which indicates which methods should be
@@ -1546,13 +1558,12 @@ class Data(BaseCartesianData):
 
             comp._data = data
 
+        _clear_subset_state_caches()
+
         # alert hub of the change
         if self.hub is not None:
             msg = NumericalDataChangedMessage(self, components_changed=list(mapping.keys()))
             self.hub.broadcast(msg)
-
-        for subset in self.subsets:
-            clear_cache(subset.subset_state.to_mask)
 
     def update_values_from_data(self, data):
         """
@@ -1618,13 +1629,12 @@ class Data(BaseCartesianData):
         # Update data coordinates
         self.coords = data.coords
 
+        _clear_subset_state_caches()
+
         # alert hub of the change
         if self.hub is not None:
             msg = NumericalDataChangedMessage(self)
             self.hub.broadcast(msg)
-
-        for subset in self.subsets:
-            clear_cache(subset.subset_state.to_mask)
 
     # The following are methods for accessing the data in various ways that
     # can be overriden by subclasses that want to improve performance.
